@@ -160,6 +160,19 @@ def r_dup_forget(F, V):
                     if st.get("k") != "adt" or not st["path"].startswith("raw::"):
                         continue  # cloning plain data, not a cursor/resource
                 dups.append((i, cp if cp == "core::ptr::read" else "clone of cursor " + t["f"]["self_ty"]["s"]))
+        # a cursor / handle derived from self is packaged into another Drop type (e.g. a producer built over
+        # self.table): self's own Drop would then release or clear what the new owner is still using
+        for i, k, s in body.stmts():
+            if s["k"] == "assign" and s["rv"]["k"] == "aggregate" and s["rv"]["kind"] == "adt" and s["rv"]["adt"] in V.drop_impl and s["rv"]["adt"] != t1["path"]:
+                for o in s["rv"]["ops"]:
+                    if o["k"] not in ("copy", "move"):
+                        continue
+                    for og in body.origins(o):
+                        if og[0] == "call" and og[2]["args"] and og[2]["args"][0]["k"] in ("copy", "move"):
+                            r, path = deep_root(body, og[2]["args"][0]["p"])
+                            if r == 1 and path:  # a by-value `self` moved into the callee is not a duplicate
+                                dups.append((i, "cursor over self handed to %s" % s["rv"]["adt"].split("::")[-1]))
+        dups = list(dict.fromkeys(dups))
         if not dups:
             continue
         forgets = []
